@@ -10,7 +10,21 @@ PROP = {
              "UnmarshalTL; arbitrary values with nil pointers/slices regardless of the mode; truncated and byte-substituted "
              "encodings; a byte-string sweep of every length 0..1100 (0..300 + sampled in quick) and around 2^16 and 2^18 "
              "through both directions against an independent reference layout; EncodeLength up to 2^24-1; 2^24-1 and 2^24 "
-             "bytes on the implementation alone; every LiteServer*/LiteProxy* method of Client over an in-process pipe "
+             "bytes on the implementation alone; byte strings across readN's threshold 4096 and io.CopyN's 32 KiB chunk "
+             "(4092..4100, 8191..8193, 32767..32769); vectors at and across the decoder's internal constants "
+             "(4095/4096/4097, 8191/8192/8193, 65535/65536/65537 in the thorough tier, 65537 for []uint32 in quick) for "
+             "[]uint32, []uint64, [][]byte, []Int256, nested [][]uint32 (long outside and long inside), a vector of a small "
+             "struct with optional fields, through tl.Marshal/tl.Unmarshal on the basic kinds (kinds c10.bmarshal / "
+             "c10.bunmarshal) and inside real binding types (getConfigParams param_list, getLibraries library_list, "
+             "blockTransactions ids, transactionList ids), through LiteapiRequestDecoder and through a request method's "
+             "answer, with the oracle decoded length = announced length, junk suffix left unread, re-encode = input; the "
+             "hand-written codecs (kind c10.hand): ton.AccountID, ton.BlockID (reflection walk), ton.BlockIDExt "
+             "(MarshalTL and UnmarshalTL([]byte), also 79/81 bytes), tlb.VmStack (TL framing of the BOC) with "
+             "non-palindromic workchains (1, 2, 0x01020304, 0x80000000, -2, ...), shard and seqno boundary values, each "
+             "compared with the model, with tl_encode/tl_decode of its lite_api.tl declaration inside the model, and "
+             "cross-checked on the implementation against the generated codec of the same declaration "
+             "(LiteServerAccountIdC, TonNodeBlockIdC, TonNodeBlockIdExtC incl. ToBlockIdExt); "
+             "every LiteServer*/LiteProxy* method of Client over an in-process pipe "
              "with a scripted server (payload captured; answers: boxed result, boxed liteServer.error, foreign tag, "
              "truncated); LiteapiRequestDecoder on every function's request; unsafe.Sizeof and ToCamelCase. The extracted "
              "model (mini-language semantics on the terms translated from generated.go) must print the same bytes/values, "
@@ -24,12 +38,17 @@ PROP = {
                     "all values MarshalTL = tl_encode, UnmarshalTL inverts it on any continuation, request payloads are the "
                     "declared id followed by the arguments, answers are dispatched on the declared result and error ids. "
                     "coq/Properties/C10_gen.v re-runs the checker by vm_compute on lite_api.tl and generated.go/extensions.go as "
-                    "translated on this run and instantiates the theorems for every declaration and function."),
+                    "translated on this run and instantiates the theorems for every declaration and function; the hand-written "
+                    "codecs ton.AccountID, ton.BlockID, ton.BlockIDExt, tlb.VmStack (framing) have layout theorems (bytes = "
+                    "tl_encode of liteServer.accountId / tonNode.blockId / tonNode.blockIdExt as declared today) and round-trip "
+                    "theorems."),
     'assumptions': ["values in the domain of the wire-format spec: ints below 2^32/2^64, byte strings below 2^24 bytes, optional "
                     "fields present exactly when the mode bit is set, nesting depth below 64 (lite_api.tl nests 5 deep)",
                     "the Go reader is more liberal than the strict TL reader (non-zero padding, long form for short strings): "
                     "only 'spec accepts => Go returns the same' is proved",
-                    "translator and mini-language semantics are trusted by correspondence; allocation/totality of the decoder is C08"],
+                    "translator and mini-language semantics are trusted by correspondence; allocation/totality of the decoder is C08",
+                    "the models of the hand-written codecs are hand transcriptions tied by correspondence; of tlb.VmStack only "
+                    "the TL framing is in scope (the cell codec is C03)"],
 }
 
 META = {
@@ -42,7 +61,10 @@ META = {
              "MarshalTL/UnmarshalTL/request method extracted from generated.go and extensions.go on each run, so the theorems "
              "hold for all values of the ~75 checked-in types and 29 functions; the extracted model reproduces the "
              "implementation's bytes and values on generated cases, and re-running both generators reproduces "
-             "liteclient/generated.go and tlb/integers.go byte for byte."),
+             "liteclient/generated.go and tlb/integers.go byte for byte. The hand-written TL codecs outside the generated file "
+             "(ton.AccountID, ton.BlockID, ton.BlockIDExt, the TL framing of tlb.VmStack, tl.Int256, LiteServerSignatureSet) are "
+             "modelled too, proved to write the layout of their lite_api.tl declarations, and compared with the implementation "
+             "and with the generated codecs of the same declarations."),
     'design_ref': 'DESIGN.md §6 C10 / C09',
     'note': ("Trusted: Coq kernel, extraction, drivers, Go harness, the go/ast extractor and the mini-language semantics "
              "(validated by differential execution on every binding type and request method). One defect repaired: tl.Marshal "
